@@ -66,6 +66,9 @@ def c12(case):
 
 
 def c13(case):
+    if case.get("scan"):
+        r, lnt, obs = fixcase.observe(case)
+        return {"status": "pass", "counters": {"fixes_rejected_by_validation": obs.get("validation_rejections", 0)}}
     r, lnt, obs = fixcase.observe(case, second_pass=True)
     if lnt is None:
         return {"status": "harness_error", "detail": obs}
@@ -89,7 +92,7 @@ def c13(case):
     return {
         "status": "fail" if fails else "pass",
         "failures": fails,
-        "counters": {"parsable_sources": 1, "files_changed_by_fix": int(changed), "reparsed_fixed_texts": 1},
+        "counters": {"parsable_sources": 1, "files_changed_by_fix": int(changed), "reparsed_fixed_texts": 1, "fixes_rejected_by_validation": obs.get("validation_rejections", 0)},
         "key": _key(r, case) if changed else None,
         "sample": {"source": r["source"][:160], "fixed": obs["fixed"][:160], "dialect": r["dialect"], "rules": case.get("rules")} if changed and case["kind"] != "fx" else None,
     }
